@@ -77,7 +77,7 @@ theorem pgraph_fix {U : Table D} {K : Nat} {st : Bool} {join0 : D → D → Bool
     obtain ⟨e1, he1, hk, _, hx1⟩ := hent _ e0 np0.ent
     refine ⟨e1, ⟨he1, by rw [hseq, hk]; exact np0.term, fun b => ?_, np0.strand⟩, hk⟩
     rw [hex s b, hx1, np0.exts b, Filter.extTarget_eq, (node_target n0 s (port i s) e0 np0 b).2]
-  refine ⟨?_, ?_, ?_, ?_, ?_, ?_, ?_, ?_, ?_, ?_, ?_, ?_, ?_⟩
+  refine ⟨?_, ?_, ?_, ?_, ?_, ?_, ?_, ?_, ?_, ?_, ?_, ?_, ?_, ?_⟩
   · intro i n1 h1
     obtain ⟨n0, h0, hs, _⟩ := hnode i n1 h1
     rw [hs]; exact pg.len i n0 h0
@@ -115,6 +115,7 @@ theorem pgraph_fix {U : Table D} {K : Nat} {st : Bool} {join0 : D → D → Bool
     exact linkOf_prune join0 wf hes2 x d y d' (pg.lkSub x d y d' h)
   · intro i hi; rw [hlen1] at hi; exact pg.inner i hi
   · intro i hi; rw [hlen1] at hi; exact pg.connM i hi
+  · intro i hi; rw [hlen1] at hi; exact pg.chain i hi
 
 /-! ### node sides and port entries have the same number of extensions -/
 
